@@ -155,19 +155,28 @@ theorem savedOK_congr {S b} {h h' : Half} (h1 : h'.saved = h.saved) (h2 : h'.nex
   unfold SavedOK at *; rw [h1, h2]; exact hs
 
 structure HBPost (S : List UInt8) (b : Int) (h : Half) (queue : Bool) (seq : Int) (len : Nat) (fin syn : Bool)
-    (res : Half × Int × List Cont) : Prop where
+    (cfgNoLimit : Prop) (res : Half × Int × List Cont) : Prop where
   same : res.1 = { h with queue := res.1.queue, pages := res.1.pages }
   strict : Inv S b h → Inv S b res.1
   ret : res.2.2 = [] ∨ ∃ r0, res.2.2 = [r0] ∧ SendPre S b res.1 r0 ∧
         (queue = false → r0.fin = fin ∧ r0.seq = h.nextSeq)
   must : queue = false → (fin = true ∨ syn = true) → res.2.2 ≠ []
   endQ : queue = false → Inv S b h → seq + len = b + S.length → res.1.queue = []
+  noLimit : queue = true → cfgNoLimit → res.2.2 = []
+
+theorem limitHit_off {cfg : Cfg} (h : cfg.maxPer ≤ 0 ∧ cfg.maxTotal ≤ 0) (pages used : Int) :
+    limitHit cfg pages used = false := by
+  simp only [limitHit]
+  have h1 : ¬ cfg.maxPer > 0 := by omega
+  have h2 : ¬ cfg.maxTotal > 0 := by omega
+  simp [h1, h2]
 
 theorem handleBytes_spec (S : List UInt8) (b : Int) (hb0 : 0 ≤ b) (cfg : Cfg) (h : Half) (used : Int) (queue : Bool) (seq : Int)
     (bytes : List UInt8) (ts : Int) (syn fin : Bool) (hw : WInv S b h) (hat : At S b seq bytes)
     (hq : queue = true → (h.nextSeq = -1 ∨ h.nextSeq < seq))
     (hnq : queue = false → (h.nextSeq ≠ -1 ∧ seq ≤ h.nextSeq)) :
-    Res.Ok (handleBytes I cfg h used queue seq bytes ts syn fin) (HBPost S b h queue seq bytes.length fin syn) := by
+    Res.Ok (handleBytes I cfg h used queue seq bytes ts syn fin)
+      (HBPost S b h queue seq bytes.length fin syn (cfg.maxPer ≤ 0 ∧ cfg.maxTotal ≤ 0)) := by
   unfold handleBytes
   cases queue with
   | true =>
@@ -193,13 +202,17 @@ theorem handleBytes_spec (S : List UInt8) (b : Int) (hb0 : 0 ≤ b) (cfg : Cfg) 
     simp only
     split
     · -- the limit is hit: pop the first queued page
+      rename_i hlim
+      have hnolim : (cfg.maxPer ≤ 0 ∧ cfg.maxTotal ≤ 0) → False := fun hc => by
+        rw [limitHit_off hc] at hlim; cases hlim
       unfold addNextFromConn
       cases hq1 : h1.queue with
       | nil =>
         simp only
         refine Res.Ok.intro ?_
         exact { same := hsame, strict := hstrict1, ret := Or.inl rfl,
-                must := fun hc => Bool.noConfusion hc, endQ := fun hc => Bool.noConfusion hc }
+                must := fun hc => Bool.noConfusion hc, endQ := fun hc => Bool.noConfusion hc,
+                noLimit := fun _ _ => rfl }
       | cons p rest =>
         simp only [List.nil_append]
         have hsort : Sorted (p :: rest) := hq1 ▸ cp.sorted
@@ -228,10 +241,12 @@ theorem handleBytes_spec (S : List UInt8) (b : Int) (hb0 : 0 ≤ b) (cfg : Cfg) 
             after := fun q hq' => hsc.1 q hq'
             saved := savedOK_congr hsv1 hns1 hw.saved }, fun hc => Bool.noConfusion hc⟩
           must := fun hc => Bool.noConfusion hc
-          endQ := fun hc => Bool.noConfusion hc }
+          endQ := fun hc => Bool.noConfusion hc
+          noLimit := fun _ hc => absurd hc hnolim }
     · refine Res.Ok.intro ?_
       exact { same := hsame, strict := hstrict1, ret := Or.inl rfl,
-              must := fun hc => Bool.noConfusion hc, endQ := fun hc => Bool.noConfusion hc }
+              must := fun hc => Bool.noConfusion hc, endQ := fun hc => Bool.noConfusion hc,
+              noLimit := fun _ _ => rfl }
   | false =>
     simp only [Bool.false_eq_true, if_false]
     obtain ⟨hns, hle⟩ := hnq rfl
@@ -288,7 +303,8 @@ theorem handleBytes_spec (S : List UInt8) (b : Int) (hb0 : 0 ≤ b) (cfg : Cfg) 
           after := hafter
           saved := savedOK_congr hsv1 hns1 hw.saved }, fun _ => ⟨rfl, rfl⟩⟩
         must := fun _ _ => by simp
-        endQ := fun _ => hendQ }
+        endQ := fun _ => hendQ
+        noLimit := fun hc => Bool.noConfusion hc }
     · rename_i hcond
       refine Res.Ok.intro ?_
       exact {
@@ -300,7 +316,8 @@ theorem handleBytes_spec (S : List UInt8) (b : Int) (hb0 : 0 ≤ b) (cfg : Cfg) 
           rcases hfs with hf | hf
           · exact Or.inr (Or.inl hf)
           · exact Or.inr (Or.inr hf)
-        endQ := fun _ => hendQ }
+        endQ := fun _ => hendQ
+        noLimit := fun hc => Bool.noConfusion hc }
 
 theorem inv_congr {S b} {h h' : Half} (h1 : h'.nextSeq = h.nextSeq) (h2 : h'.queue = h.queue) (h3 : h'.saved = h.saved)
     (hi : Inv S b h) : Inv S b h' :=
@@ -320,12 +337,13 @@ theorem finishAssemble_spec (S : List UInt8) (b : Int) (hb : 0 ≤ b) (h : Half)
     (hret : ret = [] ∨ ∃ r0, ret = [r0] ∧ SendPre S b h r0)
     (hbump : bump = true → ∃ r0, ret = [r0] ∧ h.queue = [] ∧ r0.fin = true) :
     Res.Ok (finishAssemble I h used ret ts keep bump) (fun o => StepOK S b h o ∧
-      (∀ r0, ret = [r0] → ∃ g, o.sgs = [g] ∧ g.skip = if h.nextSeq ≠ -1 then r0.seq - h.nextSeq else -1)) := by
+      (∀ r0, ret = [r0] → ∃ g, o.sgs = [g] ∧ g.skip = if h.nextSeq ≠ -1 then r0.seq - h.nextSeq else -1) ∧
+      (ret = [] → o.sgs = [])) := by
   unfold finishAssemble
   rcases hret with hr | ⟨r0, hr, pre⟩
   · subst hr
     simp only [List.length_nil, Nat.lt_irrefl, if_false]
-    refine Res.Ok.intro ⟨⟨Or.inr (hnil rfl), Rep.nil _, fun hc => by simp at hc⟩, fun r0 hr => by simp at hr⟩
+    refine Res.Ok.intro ⟨⟨Or.inr (hnil rfl), Rep.nil _, fun hc => by simp at hc⟩, fun r0 hr => by simp at hr, fun _ => rfl⟩
   · subst hr
     simp only [List.length_cons, List.length_nil, Nat.zero_add, Nat.lt_add_one, if_true]
     obtain ⟨s, hs, post⟩ := sendToConnection_spec S b hb h used r0 ts keep pre
@@ -351,7 +369,8 @@ theorem finishAssemble_spec (S : List UInt8) (b : Int) (hb : 0 ≤ b) (h : Half)
       exact ⟨this.1, this.2, fun hc => by
         show s.half.closed = true
         rw [post.closed]; simp only at hc; rw [hc]; simp⟩
-    · intro r1 hr1
+    · refine ⟨?_, fun hc => by simp at hc⟩
+      intro r1 hr1
       have : r0 = r1 := by simpa using hr1
       subst this
       exact ⟨s.sg, rfl, post.skip⟩
@@ -366,9 +385,41 @@ theorem StepOK.congr {S b} {h h' : Half} {o : Out} (habs : absPos b h' = absPos 
     StepOK S b h o := by
   unfold StepOK at *; rw [← habs]; exact hs
 
+/-- the decision of AssembleWithContext in offset space: either nothing changes (and the half satisfies the
+    strict invariant), or this is the first SYN and nextSeq becomes the number of the first stream byte -/
+theorem decideQueue_spec {S : List UInt8} {b : Int} {h0 : Half} (hI : Inv S b h0) (syn : Bool) (acc : Nat) (sq : Int)
+    (hacc : acc ≤ 1) (hsq : b ≤ sq ∧ sq ≤ b + S.length) (hsyn : syn = true → sq = b) :
+    ((decideQueue I h0 syn acc sq).1 = h0 ∧
+      ((decideQueue I h0 syn acc sq).2 = true → (h0.nextSeq = -1 ∨ h0.nextSeq < sq)) ∧
+      ((decideQueue I h0 syn acc sq).2 = false → (h0.nextSeq ≠ -1 ∧ sq ≤ h0.nextSeq))) ∨
+    (syn = true ∧ h0.nextSeq = -1 ∧ decideQueue I h0 syn acc sq = ({ h0 with nextSeq := sq }, false)) := by
+  unfold decideQueue
+  have hacc2 : ¬ acc = 2 := by omega
+  by_cases hns : h0.nextSeq = invalidSeq
+  · rw [if_pos hns]
+    by_cases hs : syn = true
+    · rw [if_pos hs]
+      exact Or.inr ⟨hs, hns, rfl⟩
+    · rw [if_neg hs]
+      have hst : ¬ ((h0.nextSeq = invalidSeq ∧ syn = true) ∨ acc = 2) := by
+        intro hc; rcases hc with ⟨_, hc⟩ | hc
+        · exact hs hc
+        · exact hacc2 hc
+      rw [if_neg hst]
+      exact Or.inl ⟨rfl, fun _ => Or.inl hns, fun hc => Bool.noConfusion hc⟩
+  · rw [if_neg hns]
+    by_cases hq : I.diff h0.nextSeq sq > 0
+    · rw [if_pos hq]
+      simp only [I_diff] at hq
+      exact Or.inl ⟨rfl, fun _ => Or.inr (by omega), fun hc => Bool.noConfusion hc⟩
+    · rw [if_neg hq]
+      simp only [I_diff] at hq
+      exact Or.inl ⟨rfl, fun hc => Bool.noConfusion hc, fun _ => ⟨hns, by omega⟩⟩
+
 theorem assemble_spec (S : List UInt8) (i : Int) (hi : 0 ≤ i) (cfg : Cfg) (h : Half) (used : Int) (p : Seg) (acc : Nat)
     (keep : KeepRule) (hinv : HInv S (i + 1) h) (hp : SegOK S i p) (hacc : acc ≤ 1) :
-    Res.Ok (assemble I cfg h used p acc keep) (StepOK S (i + 1) h) := by
+    Res.Ok (assemble I cfg h used p acc keep) (fun o => StepOK S (i + 1) h o ∧
+      ((cfg.maxPer ≤ 0 ∧ cfg.maxTotal ≤ 0) → ∀ g ∈ o.sgs, g.skip = 0)) := by
   have hb : (0 : Int) ≤ i + 1 := by omega
   unfold assemble
   -- the lastSeen update does not matter
@@ -382,160 +433,129 @@ theorem assemble_spec (S : List UInt8) (i : Int) (hi : 0 ≤ i) (cfg : Cfg) (h :
     rcases hinv with hc | hi'
     · exact Or.inl (by rw [hc0]; exact hc)
     · exact Or.inr (inv_congr hn0 hq0 hs0 hi')
-  refine Res.Ok.mono (P := StepOK S (i + 1) h0) ?_ (fun o ho => ho.congr habs)
+  refine Res.Ok.mono (P := fun o => StepOK S (i + 1) h0 o ∧
+      ((cfg.maxPer ≤ 0 ∧ cfg.maxTotal ≤ 0) → ∀ g ∈ o.sgs, g.skip = 0)) ?_ (fun o ho => ⟨ho.1.congr habs, ho.2⟩)
   have hat := segok_at hp
   have hdata : p.dataSeq = (if p.syn = true then I.add p.seq 1 else p.seq) := rfl
   generalize hsq : (if p.syn = true then I.add p.seq 1 else p.seq) = sq at hat hdata ⊢
   simp only
   by_cases ha : acc = 0
   · rw [if_pos ha]
-    exact Res.Ok.intro ⟨hinv0, Rep.nil _, fun hc => by simp at hc⟩
+    exact Res.Ok.intro ⟨⟨hinv0, Rep.nil _, fun hc => by simp at hc⟩, fun _ g hg => by simp at hg⟩
   rw [if_neg ha]
   by_cases hcl : h0.closed = true
   · rw [if_pos hcl]
-    exact Res.Ok.intro ⟨hinv0, Rep.nil _, fun hc => by simp at hc⟩
+    exact Res.Ok.intro ⟨⟨hinv0, Rep.nil _, fun hc => by simp at hc⟩, fun _ g hg => by simp at hg⟩
   rw [if_neg hcl]
   have hopen : h0.closed = false := by simpa using hcl
   have hI : Inv S (i + 1) h0 := hinv0.resolve_left hcl
   have hatl := hat.len
-  have hacc2 : ¬ acc = 2 := by omega
-  -- the decision: queue or not
-  by_cases hns : h0.nextSeq = invalidSeq
-  · rw [if_pos hns]
-    have hns' : h0.nextSeq = -1 := hns
-    by_cases hsyn : p.syn = true
-    · -- first SYN: the start is seen now
-      rw [if_pos hsyn]
-      have hseq : p.seq = i := (hp.1 hsyn).1
-      have hfin : p.fin = false := (hp.1 hsyn).2
-      have hsqv : sq = i + 1 := by
-        rw [← hsq, if_pos hsyn]; simp only [I_add]; omega
-      let h1 : Half := { h0 with nextSeq := sq }
-      have hw1 : WInv S (i + 1) h1 := {
-        ns := Or.inr (by simp only [h1]; omega)
-        sorted := hI.queue.1
-        ok := hI.queue.2.1
-        lower := fun _ q hq => by
-          have := (hI.queue.2.1 q hq).1.len
-          simp only [h1]; omega
-        saved := Or.inl (by
-          rcases hI.saved with hsv | ⟨hne, _⟩
-          · exact hsv
-          · exact absurd hns' hne) }
-      obtain ⟨⟨h2, used2, ret⟩, hhb, hbp⟩ := handleBytes_spec S (i + 1) hb cfg h1 used false sq p.bytes p.ts
-        p.syn (p.rst || p.fin) hw1 hat (fun hc => by cases hc) (fun _ => ⟨by simp only [h1]; omega, Int.le_refl _⟩)
-      show Res.Ok (match handleBytes I cfg h1 used false sq p.bytes p.ts p.syn (p.rst || p.fin) with
-        | .ok (h, used, ret) => finishAssemble I h used ret p.ts keep (p.fin && !false)
-        | .err k => .err k
-        | .panic k => .panic k) _
-      rw [hhb]
-      have hsame := hbp.same
-      simp only at hsame
-      have hopen2 : h2.closed = false := by rw [hsame]; exact hopen
-      have hne : ret ≠ [] := hbp.must rfl (Or.inr hsyn)
-      obtain ⟨r0, hr0, pre, hfs⟩ := hbp.ret.resolve_left hne
-      simp only at hr0
-      obtain ⟨o, ho, hst, hsk⟩ := finishAssemble_spec S (i + 1) hb h2 used2 ret p.ts keep (p.fin && !false) hopen2
-        (fun hc => absurd hc hne) (Or.inr ⟨r0, hr0, pre⟩) (fun hc => by simp [hfin] at hc)
-      refine ⟨o, ho, hst.1, ?_, hst.2.2⟩
-      -- the stream's position was unknown; this ScatterGather starts at offset 0
-      obtain ⟨g, hg, hgs⟩ := hsk r0 hr0
-      have hn2 : h2.nextSeq = i + 1 := by rw [hsame]; simp only [h1]; omega
-      have hsv2 : h2.saved = [] := by
-        rw [hsame]
-        rcases hI.saved with hsv | ⟨hne', _⟩
+  have hsynsq : p.syn = true → sq = i + 1 := by
+    intro hs
+    rw [← hsq, if_pos hs]; simp only [I_add]; have := (hp.1 hs).1; omega
+  rcases decideQueue_spec hI p.syn acc sq hacc ⟨hatl.1, by omega⟩ hsynsq with ⟨hd1, hdq, hdn⟩ | ⟨hsyn, hns', hd⟩
+  · -- no start in this call: the half connection is as it was
+    generalize decideQueue I h0 p.syn acc sq = d at hd1 hdq hdn
+    obtain ⟨h1, queue⟩ := d
+    simp only at hd1 hdq hdn ⊢
+    subst hd1
+    obtain ⟨⟨h2, used2, ret⟩, hhb, hbp⟩ := handleBytes_spec S (i + 1) hb cfg h1 used queue sq p.bytes p.ts
+      p.syn (p.rst || p.fin) hI.weak hat hdq hdn
+    rw [hhb]
+    have hsame := hbp.same
+    simp only at hsame
+    have hopen2 : h2.closed = false := by rw [hsame]; exact hopen
+    have habs2 : absPos (i + 1) h2 = absPos (i + 1) h1 := absPos_congr (by rw [hsame]) (by rw [hsame]) (by rw [hsame])
+    obtain ⟨o, ho, hst, hsk, hnil'⟩ := finishAssemble_spec S (i + 1) hb h2 used2 ret p.ts keep (p.fin && !queue) hopen2
+      (fun _ => hbp.strict hI)
+      (by rcases hbp.ret with hr | ⟨r0, hr, pre, _⟩
+          · exact Or.inl hr
+          · exact Or.inr ⟨r0, hr, pre⟩)
+      (by
+        intro hc
+        have hfin : p.fin = true := by
+          cases hpf : p.fin with
+          | true => rfl
+          | false => rw [hpf] at hc; simp at hc
+        have hqf : queue = false := by
+          cases hqq : queue with
+          | false => rfl
+          | true => rw [hqq, hfin] at hc; simp at hc
+        have hne : ret ≠ [] := hbp.must hqf (Or.inl (by simp [hfin]))
+        obtain ⟨r0, hr0, pre, hfs⟩ := hbp.ret.resolve_left hne
+        refine ⟨r0, hr0, hbp.endQ hqf hI ?_, by rw [(hfs hqf).1]; simp [hfin]⟩
+        have := hp.2.2 hfin
+        rw [hdata] at this
+        exact this)
+    refine ⟨o, ho, hst.congr habs2, ?_⟩
+    intro hcfg g hg
+    rcases hbp.ret with hr | ⟨r0, hr, pre, hfs⟩
+    · rw [hnil' hr] at hg; simp at hg
+    · obtain ⟨g', hg', hgs⟩ := hsk r0 hr
+      rw [hg'] at hg
+      have : g = g' := by simpa using hg
+      subst this
+      cases hqq : queue with
+      | true =>
+        have := hbp.noLimit hqq hcfg
+        rw [hr] at this; simp at this
+      | false =>
+        have hn := (hdn hqq).1
+        have hn2 : h2.nextSeq = h1.nextSeq := by rw [hsame]
+        rw [hgs, hn2, if_pos hn, (hfs hqq).2]; omega
+  · -- first SYN: the start is seen now
+    rw [hd]
+    simp only
+    have hfin : p.fin = false := (hp.1 hsyn).2
+    have hsqv : sq = i + 1 := hsynsq hsyn
+    let h1 : Half := { h0 with nextSeq := sq }
+    have hw1 : WInv S (i + 1) h1 := {
+      ns := Or.inr (by simp only [h1]; omega)
+      sorted := hI.queue.1
+      ok := hI.queue.2.1
+      lower := fun _ q hq => by
+        have := (hI.queue.2.1 q hq).1.len
+        simp only [h1]; omega
+      saved := Or.inl (by
+        rcases hI.saved with hsv | ⟨hne, _⟩
         · exact hsv
-        · exact absurd hns' hne'
-      have habs2 : absPos (i + 1) h2 = .at 0 0 := by
-        have e1 : ¬ (i + 1 = -1) := by omega
-        simp only [absPos, hopen2, hn2, hsv2, bytesLen, Bool.false_eq_true, if_false, e1, List.map_nil,
-          List.sum_nil, Int.sub_self, Int.toNat_zero]
-      have habs0 : absPos (i + 1) h0 = .unknown := by simp [absPos, hopen, hns']
-      have hr := hst.2.1
-      rw [habs2, hg] at hr
-      rw [habs0, hg]
-      refine hr.toUnknown ?_
-      rw [hgs, if_pos (by rw [hn2]; omega), (hfs rfl).2, hn2]
+        · exact absurd hns' hne) }
+    obtain ⟨⟨h2, used2, ret⟩, hhb, hbp⟩ := handleBytes_spec S (i + 1) hb cfg h1 used false sq p.bytes p.ts
+      p.syn (p.rst || p.fin) hw1 hat (fun hc => by cases hc) (fun _ => ⟨by simp only [h1]; omega, Int.le_refl _⟩)
+    rw [hhb]
+    have hsame := hbp.same
+    simp only at hsame
+    have hopen2 : h2.closed = false := by rw [hsame]; exact hopen
+    have hne : ret ≠ [] := hbp.must rfl (Or.inr hsyn)
+    obtain ⟨r0, hr0, pre, hfs⟩ := hbp.ret.resolve_left hne
+    simp only at hr0
+    obtain ⟨o, ho, hst, hsk, _⟩ := finishAssemble_spec S (i + 1) hb h2 used2 ret p.ts keep (p.fin && !false) hopen2
+      (fun hc => absurd hc hne) (Or.inr ⟨r0, hr0, pre⟩) (fun hc => by simp [hfin] at hc)
+    obtain ⟨g, hg, hgs⟩ := hsk r0 hr0
+    have hn2' : h2.nextSeq = i + 1 := by rw [hsame]; simp only [h1]; omega
+    have hg0 : g.skip = 0 := by
+      rw [hgs, if_pos (by rw [hn2']; omega), (hfs rfl).2, hn2']
       simp only [h1]; omega
-    · -- no start yet: queue
-      rw [if_neg hsyn]
-      have hstart : ¬ ((h0.nextSeq = invalidSeq ∧ p.syn = true) ∨ acc = 2) := by
-        intro hc; rcases hc with ⟨_, hc⟩ | hc
-        · exact hsyn hc
-        · exact hacc2 hc
-      rw [if_neg hstart]
-      obtain ⟨⟨h2, used2, ret⟩, hhb, hbp⟩ := handleBytes_spec S (i + 1) hb cfg h0 used true sq p.bytes p.ts
-        p.syn (p.rst || p.fin) hI.weak hat (fun _ => Or.inl hns') (fun hc => by cases hc)
-      show Res.Ok (match handleBytes I cfg h0 used true sq p.bytes p.ts p.syn (p.rst || p.fin) with
-        | .ok (h, used, ret) => finishAssemble I h used ret p.ts keep (p.fin && !true)
-        | .err k => .err k
-        | .panic k => .panic k) _
-      rw [hhb]
-      have hsame := hbp.same
-      simp only at hsame
-      have hopen2 : h2.closed = false := by rw [hsame]; exact hopen
-      have habs2 : absPos (i + 1) h2 = absPos (i + 1) h0 := absPos_congr (by rw [hsame]) (by rw [hsame]) (by rw [hsame])
-      obtain ⟨o, ho, hst, _⟩ := finishAssemble_spec S (i + 1) hb h2 used2 ret p.ts keep (p.fin && !true) hopen2
-        (fun _ => hbp.strict hI)
-        (by rcases hbp.ret with hr | ⟨r0, hr, pre, _⟩
-            · exact Or.inl hr
-            · exact Or.inr ⟨r0, hr, pre⟩)
-        (fun hc => by simp at hc)
-      exact ⟨o, ho, hst.congr habs2⟩
-  · rw [if_neg hns]
-    have hns' : h0.nextSeq ≠ -1 := hns
-    have hbnd := hI.ns.resolve_left hns'
-    by_cases hq : I.diff h0.nextSeq sq > 0
-    · -- beyond nextSeq: queue
-      rw [if_pos hq]
-      simp only [I_diff] at hq
-      obtain ⟨⟨h2, used2, ret⟩, hhb, hbp⟩ := handleBytes_spec S (i + 1) hb cfg h0 used true sq p.bytes p.ts
-        p.syn (p.rst || p.fin) hI.weak hat (fun _ => Or.inr (by omega)) (fun hc => by cases hc)
-      show Res.Ok (match handleBytes I cfg h0 used true sq p.bytes p.ts p.syn (p.rst || p.fin) with
-        | .ok (h, used, ret) => finishAssemble I h used ret p.ts keep (p.fin && !true)
-        | .err k => .err k
-        | .panic k => .panic k) _
-      rw [hhb]
-      have hsame := hbp.same
-      simp only at hsame
-      have hopen2 : h2.closed = false := by rw [hsame]; exact hopen
-      have habs2 : absPos (i + 1) h2 = absPos (i + 1) h0 := absPos_congr (by rw [hsame]) (by rw [hsame]) (by rw [hsame])
-      obtain ⟨o, ho, hst, _⟩ := finishAssemble_spec S (i + 1) hb h2 used2 ret p.ts keep (p.fin && !true) hopen2
-        (fun _ => hbp.strict hI)
-        (by rcases hbp.ret with hr | ⟨r0, hr, pre, _⟩
-            · exact Or.inl hr
-            · exact Or.inr ⟨r0, hr, pre⟩)
-        (fun hc => by simp at hc)
-      exact ⟨o, ho, hst.congr habs2⟩
-    · -- at or before nextSeq: pass on
-      rw [if_neg hq]
-      simp only [I_diff] at hq
-      obtain ⟨⟨h2, used2, ret⟩, hhb, hbp⟩ := handleBytes_spec S (i + 1) hb cfg h0 used false sq p.bytes p.ts
-        p.syn (p.rst || p.fin) hI.weak hat (fun hc => by cases hc) (fun _ => ⟨hns', by omega⟩)
-      show Res.Ok (match handleBytes I cfg h0 used false sq p.bytes p.ts p.syn (p.rst || p.fin) with
-        | .ok (h, used, ret) => finishAssemble I h used ret p.ts keep (p.fin && !false)
-        | .err k => .err k
-        | .panic k => .panic k) _
-      rw [hhb]
-      have hsame := hbp.same
-      simp only at hsame
-      have hopen2 : h2.closed = false := by rw [hsame]; exact hopen
-      have habs2 : absPos (i + 1) h2 = absPos (i + 1) h0 := absPos_congr (by rw [hsame]) (by rw [hsame]) (by rw [hsame])
-      obtain ⟨o, ho, hst, _⟩ := finishAssemble_spec S (i + 1) hb h2 used2 ret p.ts keep (p.fin && !false) hopen2
-        (fun _ => hbp.strict hI)
-        (by rcases hbp.ret with hr | ⟨r0, hr, pre, _⟩
-            · exact Or.inl hr
-            · exact Or.inr ⟨r0, hr, pre⟩)
-        (by
-          intro hc
-          have hfin : p.fin = true := by simpa using hc
-          have hne : ret ≠ [] := hbp.must rfl (Or.inl (by simp [hfin]))
-          obtain ⟨r0, hr0, pre, hfs⟩ := hbp.ret.resolve_left hne
-          refine ⟨r0, hr0, hbp.endQ rfl hI ?_, by rw [(hfs rfl).1]; simp [hfin]⟩
-          have := hp.2.2 hfin
-          rw [hdata] at this
-          exact this)
-      exact ⟨o, ho, hst.congr habs2⟩
+    refine ⟨o, ho, ⟨hst.1, ?_, hst.2.2⟩, fun _ g' hg' => by
+      rw [hg] at hg'
+      have : g' = g := by simpa using hg'
+      rw [this]; exact hg0⟩
+    -- the stream's position was unknown; this ScatterGather starts at offset 0
+    have hn2 : h2.nextSeq = i + 1 := by rw [hsame]; simp only [h1]; omega
+    have hsv2 : h2.saved = [] := by
+      rw [hsame]
+      rcases hI.saved with hsv | ⟨hne', _⟩
+      · exact hsv
+      · exact absurd hns' hne'
+    have habs2 : absPos (i + 1) h2 = .at 0 0 := by
+      have e1 : ¬ (i + 1 = -1) := by omega
+      simp only [absPos, hopen2, hn2, hsv2, bytesLen, Bool.false_eq_true, if_false, e1, List.map_nil,
+        List.sum_nil, Int.sub_self, Int.toNat_zero]
+    have habs0 : absPos (i + 1) h0 = .unknown := by simp [absPos, hopen, hns']
+    have hr := hst.2.1
+    rw [habs2, hg] at hr
+    rw [habs0, hg]
+    exact hr.toUnknown hg0
 
 theorem closeHalf_step (S : List UInt8) (b : Int) (h : Half) (used : Int) :
     HInv S b (closeHalf h used).1 ∧ Rep S (absPos b h) [] (absPos b (closeHalf h used).1) := by
@@ -543,6 +563,25 @@ theorem closeHalf_step (S : List UInt8) (b : Int) (h : Half) (used : Int) :
   refine ⟨Or.inl hc, ?_⟩
   have : absPos b (closeHalf h used).1 = .closed := by simp [absPos, hc]
   rw [this]; exact Rep.shut _
+
+theorem skipFlush_pre {S : List UInt8} {b : Int} (hb : 0 ≤ b) {h : Half} {p : Page} {rest : List Page}
+    (hI : Inv S b h) (hq : h.queue = p :: rest) : SendPre S b { h with queue := rest } p.toCont := by
+  have hsort : Sorted (p :: rest) := hq ▸ hI.queue.1
+  have hsc := List.pairwise_cons.mp hsort
+  have hpok : PageOK S b p := hI.queue.2.1 p (by rw [hq]; exact List.mem_cons_self ..)
+  exact {
+    hat := hpok.1
+    ns := by
+      rcases hI.ns with hn | hn
+      · exact Or.inl hn
+      · right
+        have hne : h.nextSeq ≠ -1 := by omega
+        have := hI.queue.2.2 hne p (by rw [hq]; exact List.mem_cons_self ..)
+        exact ⟨hn.1, by simp only [Page.toCont]; omega⟩
+    sorted := hsc.2
+    ok := fun q hq' => hI.queue.2.1 q (by rw [hq]; exact List.mem_cons_of_mem _ hq')
+    after := fun q hq' => hsc.1 q hq'
+    saved := savedOK_congr rfl rfl hI.saved }
 
 theorem skipFlush_spec (S : List UInt8) (b : Int) (hb : 0 ≤ b) (h : Half) (used : Int) (keep : KeepRule)
     (hI : Inv S b h) (hopen : h.closed = false) :
@@ -696,7 +735,7 @@ theorem hstep_spec (S : List UInt8) (i : Int) (hi : 0 ≤ i) (h : Half) (op : HO
     (hop : op.OK S i) : Res.Ok (hstep I h op) (StepOK S (i + 1) h) := by
   have hb : (0 : Int) ≤ i + 1 := by omega
   cases op with
-  | seg p acc keep cfg used => exact assemble_spec S i hi cfg h used p acc keep hinv hop.1 hop.2
+  | seg p acc keep cfg used => exact (assemble_spec S i hi cfg h used p acc keep hinv hop.1 hop.2).mono (fun _ h' => h'.1)
   | skipFlush keep used =>
     simp only [hstep]
     by_cases hc : h.closed = true
